@@ -27,7 +27,7 @@ Section Inv.
                (forall p, p < n -> core p -> get y p = l -> core_conn s p) /\
                (forall p, p < n -> core p -> (l <= get y p)%Z -> s <= p);
     o_closed : forall p q, p < n -> core p -> (0 <= get y p)%Z -> In q (nb p) ->
-               (0 <= get y q)%Z /\ (core q -> get y q = get y p);
+               (0 <= get y q <= get y p)%Z /\ (core q -> get y q = get y p);
     o_border : forall p, p < n -> ~ core p -> (0 <= get y p)%Z ->
                exists q, In q (nb p) /\ core q /\ get y q = get y p
   }.
@@ -45,7 +45,7 @@ Section Inv.
                (forall p, p < n -> core p -> (l <= get y p)%Z -> s <= p);
     e_seed : core i /\ get y i = k /\ (forall p, p < n -> core p -> get y p = k -> core_conn i p /\ i <= p);
     e_closed_old : forall p q, p < n -> core p -> (0 <= get y p < k)%Z -> In q (nb p) ->
-               (0 <= get y q)%Z /\ (core q -> get y q = get y p);
+               (0 <= get y q <= get y p)%Z /\ (core q -> get y q = get y p);
     e_closed_cur : forall p q, p < n -> core p -> get y p = k -> In q (nb p) ->
                (0 <= get y q)%Z \/ In q st;
     e_border : forall p, p < n -> ~ core p -> (0 <= get y p)%Z ->
@@ -109,7 +109,7 @@ Section Inv.
       { destruct (Hstep p Hp) as [H|[[H1 H2]|[H1 H2]]]; lab; lia. }
       assert (Hqn : q < n) by eauto.
       destruct (E9 p q Hp Hc ltac:(lia) Hin) as [A B].
-      rewrite (Hkeep q Hqn A). split; [exact A|]. intro Hcq. rewrite B; auto.
+      rewrite (Hkeep q Hqn ltac:(lia)). split; [lia|]. intro Hcq. rewrite B; auto.
     - exact Hcl.
     - intros p Hp Hnc Hl. destruct (Hstep p Hp) as [H|[[H1 H2]|[H1 H2]]].
       + destruct (E11 p Hp Hnc ltac:(lia)) as (q & Q1 & Q2 & Q3).
@@ -307,7 +307,7 @@ Section Inv.
       { destruct (Hy2 p Hne) as [H|(H1 & H2 & _)]; [exact H|lab; lia]. }
       assert (Hqn : q < n) by eauto.
       destruct (O7 p q Hp Hcp ltac:(lia) Hin) as [A B].
-      rewrite (Hkeep q Hqn A), Hpp. auto.
+      rewrite (Hkeep q Hqn ltac:(lia)), Hpp. auto.
     - intros p q Hp Hcp Hpk Hin. right.
       destruct (Nat.eq_dec p i) as [->|Hne]; [apply in_rev; rewrite rev_involutive; exact Hin|].
       specialize (O3 p Hp). destruct (Hy2 p Hne) as [H|(H1 & H2 & _)]; lab; lia.
@@ -347,7 +347,7 @@ Section Inv.
       assert (Hqn : q < n) by eauto.
       pose proof (E4 p Hp) as Hlp. pose proof (E4 q Hqn) as Hlq.
       destruct (Z.eq_dec (get y p) k) as [Hpk|Hne].
-      + destruct (E10 p q Hp Hc Hpk Hin) as [H0|[]]. split; [exact H0|].
+      + destruct (E10 p q Hp Hc Hpk Hin) as [H0|[]]. split; [lia|].
         intro Hcq. destruct (Z.eq_dec (get y q) k) as [Hqk|Hqne]; [congruence|exfalso].
         destruct (E9 q p Hqn Hcq ltac:(lia) (Hsym p q Hp Hin)) as [_ B].
         specialize (B Hc). lia.
@@ -388,7 +388,7 @@ Section Inv.
       + intros p Hp Hc Hpl. apply Hs5; auto. rewrite <- Hback; lia.
       + intros p Hp Hc Hpl. apply Hs6; auto. rewrite <- Hback; lia.
     - intros p q Hp Hc Hl Hin. pose proof (Hback p Hl) as Hb. rewrite Hb in *.
-      destruct (O7 p q Hp Hc Hl Hin) as [A B]. rewrite (Hkeep q A). auto.
+      destruct (O7 p q Hp Hc Hl Hin) as [A B]. rewrite (Hkeep q ltac:(lia)). auto.
     - intros p Hp Hc Hl. pose proof (Hback p Hl) as Hb. rewrite Hb in *.
       destruct (O8 p Hp Hc Hl) as (q & Q1 & Q2 & Q3). exists q.
       split; [exact Q1|]. split; [exact Q2|]. rewrite Hkeep; lia.
